@@ -611,10 +611,12 @@ func (e *Engine) applyContract(st *State, fn *ssa.Function, c *Contract, args []
 	for i, p := range fn.Params {
 		vars[p.Name()] = wrapTyped(args[i], p.Type())
 	}
+	boxes := map[string]PtrV{}
 	for i, fv := range fn.FreeVars {
 		// free variables are pointers to the captured cells
 		if pv, ok := bind[i].(PtrV); ok {
 			vars[fv.Name()] = wrapTyped(e.load(st, pv, pv.Elem), pv.Elem)
+			boxes[fv.Name()] = pv
 		}
 	}
 	qn := &e.qn
@@ -627,7 +629,7 @@ func (e *Engine) applyContract(st *State, fn *ssa.Function, c *Contract, args []
 			}
 		}
 	}
-	env := &SpecEnv{e: e, st: st, old: pre, vars: vars, oldVar: vars, pkg: specPkg, qn: qn}
+	env := &SpecEnv{e: e, st: st, old: pre, vars: vars, oldVar: vars, pkg: specPkg, qn: qn, boxes: boxes}
 	callee := fn.RelString(pkgOf(fn))
 	if e.cur != nil {
 		e.cur.usedContracts[fn.String()] = true
@@ -843,6 +845,17 @@ func (e *Engine) modTargets(env *SpecEnv, x *SExpr) []modTarget {
 						out = append(out, modTarget{ks: ks, ref: m})
 					}
 				}
+			}
+			return out
+		}
+	}
+	if x.Op == "ident" {
+		// a captured variable of a closure: the box that holds it
+		if p, ok := env.boxes[x.Name]; ok && !env.bound[x.Name] {
+			suffix, ix := e.pathSuffix(p)
+			var out []modTarget
+			for _, ks := range e.leafKeys(p.rootName(e)+suffix, p.Elem, len(ix)) {
+				out = append(out, modTarget{ks: ks, ref: e.rootRef(env.st, p)})
 			}
 			return out
 		}
